@@ -68,6 +68,22 @@ def gen(seed, tier):
                     segs.append(seg(0, [g.f_df17(icao, me)]))
                 cases.append(H("C05-e%d" % n, o, segs))
                 n += 1
+    # the reply of an aircraft silent for longer than --delete-after arrives exactly when the sweep is due (12th applied frame
+    # of the run): the row is refreshed first, so it is an existing row and the reply has its effect
+    for rep in range(6 if tier == "quick" else 60):
+        pool = r.sample(ICAOS, 4)
+        d = r.choice([1, 5])
+        o = {"d": d}
+        if rep % 2:
+            o["U"] = 1
+        code = (r.randint(41, 2047) >> 4 << 5) | 0x10 | (r.randint(41, 2047) & 0xF)
+        code &= ~0x40
+        df = r.choice([20, 20, 4])
+        reply = g.f_short(4, pool[0], (r.getrandbits(14) << 13) | code) if df == 4 else g.f_long(20, pool[0], (r.getrandbits(14) << 13) | code, g.mb_any())
+        segs = [seg(0, [g.f_df17(pool[0], g.me_airpos())]),
+                seg(d * 1000 + 500, [g.f_df11(r.choice(pool[1:])) for _ in range(11)] + [reply])]
+        cases.append(H("C05-w%d" % n, o, segs))
+        n += 1
     # history: surface position frames (TC 5-8) of either parity before and between the airborne ones -- the altitude of an
     # airborne frame is that frame's, whatever the CPR slots still hold
     for rep in range(6 if tier == "quick" else 60):
